@@ -166,3 +166,29 @@ Definition chk_noby (c : command) (t : twopass) (tbl : batch) (expect : batch) :
 (* the kept rows given as observed (sort, which has no Coq model) *)
 Definition chk_alias_rows (kept : batch) (ftbl : list (row * list row)) (t : twopass) (expect : batch) : bool :=
   batch_eqb (alias_two_pass (f1_of_table ftbl) t kept) expect.
+
+(* ---------- several input streams merged by a DataProcessor (Pipe.v level D) ---------- *)
+(* the order of the streams: a numeric column, ascending (the hook VerifOrderedLess) *)
+Definition less_num (f : field) (a b : row) : bool :=
+  match get a f, get b f with
+  | VNum x, VNum y => (x <? y)%Z
+  | _, _ => false
+  end.
+Definition merged_run (keep : bool) (kf : field) (limit : option N) (stages : list rstage) (ew : bool)
+  (srcs : list (list batch)) : option (list batch) :=
+  stream_batches (build_chain (merge_stream_gen (less_num kf) limit ew keep srcs) stages).
+(* [streams] = the rows of every input stream; a case = (batch sizes of every stream, EOF convention,
+   sizes of the non-empty outputs of the successive Fetch calls of the last DataProcessor) *)
+Definition chk_merged_gen (eq : batch -> batch -> bool) (kf : field) (limit : option N) (stages : list rstage)
+  (streams : list batch) (cases : list (list (list nat) * bool * list nat)) (expect : batch) : bool :=
+  forallb (fun c => let '(cuts, ew, obs) := c in
+             match merged_run false kf limit stages ew (map (fun ct => cut_at (fst ct) (snd ct)) (combine cuts streams)) with
+             | Some l => eq (concat l) expect && list_eqb Nat.eqb (nonzero (map (@length row) l)) (nonzero obs)
+             | None => false
+             end) cases.
+Definition chk_merged := chk_merged_gen batch_eqb.
+Definition chk_merged_perm := chk_merged_gen batch_perm_eqb.
+(* the merger DataProcessor (mergeProcessor without stats: Process passes its input on) *)
+Definition merger_stage : rstage := RStage (rowwise_proc (fun r => [r])) streaming_flags.
+(* the rows of a table with the given indices (the rows dealt to one stream) *)
+Definition sel_rows (idx : list nat) (tbl : batch) : batch := map (fun i => nth i tbl []) idx.
